@@ -29,6 +29,27 @@ CLASSES = [['cluster.local', 'Worker', ['run']], ['cluster.remote', 'Worker', ['
 SCOPES = ['', '', 'a', 'a/b', 'Train', 'eval/inner_1', 'x/y/z']
 PARAMS = ['a', 'b', 'c', 'lr', 'x_1', 'Name', '_private', 'value']
 MACROS = ['mm', 'nn', 'A_macro', 'grp/mm']
+# stdlib modules imported by the generated configs, in the four forms (static registration: the import only records)
+IMPORT_MODS = ['math', 'os.path', 'json.decoder', 'collections.abc', 'xml.dom', 'email.utils', 'json', 'os', 'string']
+ALIASES = ['al', 'np', 'path', 'json', 'x_1']
+
+
+def gen_imports(rng):
+  lines = []
+  for _ in range(rng.choice([0, 0, 1, 2, 3, 5])):
+    m = rng.choice(IMPORT_MODS)
+    k = rng.random()
+    if k < 0.35 or '.' not in m and k < 0.6:
+      lines.append('import ' + m)
+    elif k < 0.6:
+      lines.append('import %s as %s' % (m, rng.choice(ALIASES)))
+    elif '.' in m:
+      a, b = m.rsplit('.', 1)
+      lines.append('from %s import %s' % (a, b) + (' as ' + rng.choice(ALIASES) if rng.random() < 0.4 else ''))
+    else:
+      lines.append('import %s as %s' % (m, rng.choice(ALIASES)))
+  return lines
+
 
 
 class Opaque:
@@ -110,7 +131,7 @@ def gen_case(rng):
       scope = rng.choice(SCOPES)
       key = (scope + '/' if scope else '') + rng.choice(targets) + '.' + rng.choice(PARAMS)
     binds.append((key, v))
-  return {'sels': sels, 'classes': classes, 'binds': binds, 'maxlen': rng.choice([20, 40, 80, 120]), 'indent': rng.choice([0, 2, 4, 8])}
+  return {'sels': sels, 'classes': classes, 'imports': gen_imports(rng), 'binds': binds, 'maxlen': rng.choice([20, 40, 80, 120]), 'indent': rng.choice([0, 2, 4, 8])}
 
 
 def cvalue_coq(v):
@@ -124,6 +145,8 @@ def measure(case):
   gin = fresh_gin()
   cfg = gin.config
   register(gin, case['sels'], case['classes'])
+  if case.get('imports'):
+    gin.parse_config('\n'.join(case['imports']) + '\n')
   for key, v in case['binds']:
     try:
       gin.bind_parameter(key, v)
@@ -146,6 +169,7 @@ def measure(case):
   if not PC.ascii_ok(text):
     return 'ascii'
   registry = [k for k, _ in cfg._REGISTRY.items()]  # pylint: disable=protected-access
+  imports = sorted([[st.module, bool(st.is_from), st.alias] for st in cfg._IMPORTS], key=repr)  # pylint: disable=protected-access
   # the real side: the text parses in a fresh gin and restores the representable bindings
   store = {(s, q): {p: v for p, v in params if not (has_opaque(v) or has_nonfinite(v))} for s, q, _, params in entries}
   gin2 = fresh_gin()
@@ -154,17 +178,19 @@ def measure(case):
   got = {k: dict(d) for k, d in gin2.config._CONFIG.items()}  # pylint: disable=protected-access
   want = {k: d for k, d in store.items() if d}
   assert {k: d for k, d in got.items() if d} == want, (got, want)
-  return registry, entries, text
+  return registry, entries, text, imports
 
 
 def case_expr(case, m):
-  registry, entries, text = m
+  registry, entries, text, imports = m
   ents = PC.clist(['{| c_scope := %s; c_sel := %s; c_method := %s; c_params := %s |}' % (
       PC.cstr(s), PC.cstr(q), 'true' if meth else 'false',
       PC.clist(['(%s, %s)' % (PC.cstr(p), cvalue_coq(v)) for p, v in params]))
                    for s, q, meth, params in entries])
   reg = PC.clist([PC.cstr(r) for r in registry])
-  return 'String.eqb (config_text %s %s %d %d) %s' % (reg, ents, case['maxlen'], case['indent'], PC.cstr(text))
+  imps = PC.clist(['{| i_module := %s; i_from := %s; i_alias := %s |}' % (
+      PC.cstr(mo), 'true' if fr else 'false', 'None' if al is None else '(Some %s)' % PC.cstr(al)) for mo, fr, al in imports]) if imports else '(@nil simport)'
+  return 'String.eqb (config_text_imports %s %s %s %d %d) %s' % (reg, imps, ents, case['maxlen'], case['indent'], PC.cstr(text))
 
 
 def main():
@@ -174,7 +200,7 @@ def main():
   ap.add_argument('--coq', default='/tmp/coqpp')
   ap.add_argument('--jobs', type=int, default=6)
   a = ap.parse_args()
-  PC.HEADER = PC.HEADER.replace('Model.PPrint.', 'Model.PPrint Model.Serial Model.ConfigText.')
+  PC.HEADER = PC.HEADER.replace('Model.PPrint.', 'Model.PPrint Model.Serial Model.ConfigText Model.ConfigTextImports.')
   bad_total = 0
   for seed in [int(s) for s in a.seeds.split(',')]:
     rng = random.Random(seed)
@@ -191,10 +217,13 @@ def main():
       bad = [(c, m) for (c, m), ok in zip(cases, oks) if not ok]
       model = (PC.evaluate(a.coq, [case_expr(c, m).split(') "', 1)[0][len('String.eqb ('):] for c, m in bad], wd, 'ctbad', a.jobs, 'string')
                if bad else [])
-    stats = {'macro section': 0, 'root macro': 0, 'continuation': 0, 'none section': 0, 'omitted value': 0, 'methods': 0, 'scoped': 0}
+    stats = {'imports': 0, 'from-imports': 0, 'aliased imports': 0, 'macro section': 0, 'root macro': 0, 'continuation': 0, 'none section': 0, 'omitted value': 0, 'methods': 0, 'scoped': 0}
     nbind = 0
-    for c, (registry, entries, text) in cases:
+    for c, (registry, entries, text, imports) in cases:
       stats['macro section'] += '# Macros:' in text
+      stats['imports'] += bool(imports)
+      stats['from-imports'] += any(fr for _, fr, _ in imports)
+      stats['aliased imports'] += any(al for _, _, al in imports)
       stats['root macro'] += any(s == '' and q == 'gin.macro' for s, q, _, _ in entries)
       stats['continuation'] += ' = \\\n' in text
       stats['none section'] += '# None.' in text
@@ -203,7 +232,7 @@ def main():
       stats['scoped'] += any(s for s, _, _, _ in entries)
       nbind += text.count(' = ')
     print('seed %d: cases %d (skipped %s); binding lines ~%d; with %s; DISAGREE %d' % (seed, len(cases), skipped, nbind, stats, len(bad)))
-    for (c, (registry, entries, text)), mtext in zip(bad, model):
+    for (c, (registry, entries, text, imports)), mtext in zip(bad, model):
       print('  DISAGREE maxlen=%d indent=%d entries=%r\n    gin:   %r\n    model: %r' % (c['maxlen'], c['indent'], entries, text, mtext))
     bad_total += len(bad)
   print('TOTAL DISAGREEMENTS: %d' % bad_total)
